@@ -5,15 +5,15 @@ one behaviour-preserving refactoring of the held-out rounds 8/9 and (b) is not
 violated by any of the 279 seeded breakages of its own property. Such a clause
 costs false alarms and has bought no detection: a failing instance is printed
 as `advisory:` and recorded in the evidence, but it is not a VIOLATION and is
-not part of what the check claims to decide. The list is frozen here with the
+not part of what the check claims to decide. Instances that are the only
+detector of a self-test mutant (PC-FIELD-SYNTAX, installify destdir, ...) were
+put back. The list is frozen here with the
 refactorings that tripped each clause; nothing is demoted at run time.
 """
 
 ADVISORY = {
     ('CACHE-REPLAY', 'find_check_cache|refills-found-and-extra'):
         'false alarm on C08-x1; violated by no seeded breakage',
-    ('CACHE-REPLAY', 'find_from_filter|hit-path-registers|found'):
-        'false alarm on C11-x3, C18-x2; violated by no seeded breakage',
     ('CACHE-REPLAY', 'find_from_filter|hit-path-replays|found'):
         'false alarm on C11-x3, C18-x2; violated by no seeded breakage',
     ('CACHE-REPLAY', 'find_from_filter|miss-path-registers|found'):
@@ -22,18 +22,12 @@ ADVISORY = {
         'false alarm on C01-w3, C03-x3; violated by no seeded breakage',
     ('DEPFILE-WIRING', 'Depfixer._call|reads-and-appends-same-file'):
         'false alarm on C07-x3; violated by no seeded breakage',
-    ('DEPFILE-WIRING', 'depfile-suffix-agreement'):
-        'false alarm on C03-x1, C07-x2; violated by no seeded breakage',
     ('DEPFILE-WIRING', 'make_compile|deps-kwarg'):
         'false alarm on C07-x2; violated by no seeded breakage',
     ('DEPFILE-WIRING', 'ninja_compile|deps-kwarg=depfile'):
         'false alarm on C03-x1, C07-x2; violated by no seeded breakage',
-    ('DEPFILE-WIRING', 'ninja_compile|deps=gcc'):
-        'false alarm on C03-x1, C07-x2; violated by no seeded breakage',
     ('ENV-FIELDS', 'Environment.load|future-version-rejected'):
         'false alarm on C09-x1; violated by no seeded breakage',
-    ('EXIT-STATUS', 'find_check_cache|compares-found-and-extra'):
-        'false alarm on C08-x1, C10-x2; violated by no seeded breakage',
     ('FLAG-MERGE', 'bfg9000.builtins.link:_get_flags|global-flags=tool.global+tool.flags(mode=global)'):
         'false alarm on C06-w2; violated by no seeded breakage',
     ('FLAG-MERGE', 'bfg9000.builtins.link:_get_flags|global-libs=tool.global+tool.lib_flags(mode=global)'):
@@ -48,23 +42,15 @@ ADVISORY = {
         'false alarm on C10-x3; violated by no seeded breakage',
     ('INSTALL-SYMMETRY', '_add_install_paths|DESTDIR-iff-supported'):
         'false alarm on C15-x3; violated by no seeded breakage',
-    ('INSTALL-SYMMETRY', 'installify|destdir-for-host-paths'):
-        'false alarm on C15-w1; violated by no seeded breakage',
     ('INSTALL-SYMMETRY', 'installify|rejects-external-files'):
-        'false alarm on C15-w1; violated by no seeded breakage',
-    ('INSTALL-SYMMETRY', 'installify|suffix-below-root-or-directory'):
         'false alarm on C15-w1; violated by no seeded breakage',
     ('INSTALL-SYMMETRY', 'patchelf.post_install|installed-rpaths'):
         'false alarm on C15-w2; violated by no seeded breakage',
-    ('LIT-SITES', 'ninja|rule-name'):
-        'false alarm on C05-x2; violated by no seeded breakage',
     ('LOAD-ONLY', 'regenerate|backend-from-saved-env'):
         'false alarm on C09-w3; violated by no seeded breakage',
     ('LOAD-ONLY', 'regenerate|compdb-from-saved-env'):
         'false alarm on C09-w3; violated by no seeded breakage',
     ('LOAD-ONLY', 'regenerate|configure_build(env)'):
-        'false alarm on C09-w3; violated by no seeded breakage',
-    ('LOAD-ONLY', 'regenerate|toolchain-from-saved-env'):
         'false alarm on C09-w3; violated by no seeded breakage',
     ('OPTION-EXHAUSTIVE', 'WarningValue|disable->-w'):
         'false alarm on C16-x1; violated by no seeded breakage',
@@ -80,18 +66,8 @@ ADVISORY = {
         'false alarm on C12-x1; violated by no seeded breakage',
     ('PATH-JSON', 'from_json|root-lookup'):
         'false alarm on C12-x2; violated by no seeded breakage',
-    ('PC-FIELD-SYNTAX', 'Cflags'):
-        'false alarm on C17-x1; violated by no seeded breakage',
-    ('PC-FIELD-SYNTAX', 'Libs'):
-        'false alarm on C17-x1; violated by no seeded breakage',
-    ('PC-FIELD-SYNTAX', 'Libs.private'):
-        'false alarm on C17-x1; violated by no seeded breakage',
-    ('PUSH-PATH', 'StackContext.exports|top-of-stack'):
-        'false alarm on C19-w1; violated by no seeded breakage',
     ('PUSH-PATH', 'push_path|fresh-entry'):
         'false alarm on C19-w1; violated by no seeded breakage',
-    ('RESULT-LATTICE', 'FileFilter._match_globs|precedence'):
-        'false alarm on C11-w2, C11-x2; violated by no seeded breakage',
     ('RESULT-LATTICE', 'FileFilter.match|filter-combined-with-&'):
         'false alarm on C11-w2; violated by no seeded breakage',
     ('RESULT-LATTICE', 'FindResult.__bool__|include-only'):
@@ -100,8 +76,6 @@ ADVISORY = {
         'false alarm on C14-w2, C14-x2; violated by no seeded breakage',
     ('RPATH-ORIGIN', 'CcLinker.flags|rpath-from-libs'):
         'false alarm on C16-w2, C16-x2; violated by no seeded breakage',
-    ('RULE-OWNER', 'loop-covers-all|NinjaFile.build'):
-        'false alarm on C05-x2; violated by no seeded breakage',
     ('RULE-OWNER', 'registers|Makefile.rule'):
         'false alarm on C03-x2; violated by no seeded breakage',
     ('RULE-OWNER', 'registers|NinjaFile.build'):
@@ -114,8 +88,6 @@ ADVISORY = {
         'false alarm on C06-w2; violated by no seeded breakage',
     ('SIBLING', 'flag-component|bfg9000.builtins.link|gopts-from-registry'):
         'false alarm on C06-w2; violated by no seeded breakage',
-    ('UUID-PERSIST', 'UuidMap.__getitem__|stores-new'):
-        'false alarm on C20-x2; violated by no seeded breakage',
     ('WRITE-ORDER', 'make.write|opens-build-file-for-write'):
         'false alarm on C10-x3; violated by no seeded breakage',
     ('WRITE-ORDER', 'ninja.write|opens-build-file-for-write'):
